@@ -27,7 +27,14 @@ def shrink(self, antimask):
     if Qube._DISABLE_SHRINKING:
         if not self._shape_ or Qube.is_one_true(antimask):
             return self
-        return self.mask_where(np.logical_not(antimask))
+
+        # The antimask might have more axes than this object
+        mask = np.logical_not(antimask)
+        new_shape = Qube.broadcasted_shape(self._shape_, np.shape(mask))
+        if new_shape != self._shape_:
+            self = self.broadcast_to(new_shape)
+
+        return self.mask_where(np.broadcast_to(mask, new_shape))
 
     # A True antimask leaves an object unchanged
     if Qube.is_one_true(antimask):
@@ -51,13 +58,16 @@ def shrink(self, antimask):
     # will have the same number of elements as the number of True elements
     # in the antimask.
 
+    # The derivatives are shrunk separately
+    derivs = self._derivs_
+
     # Ensure that this object and the antimask have compatible dimensions.
     # If the antimask has extra dimensions, broadcast self to make it work
     self_rank = len(self._shape_)
     antimask_rank = antimask.ndim
     extras = self_rank - antimask_rank
     if extras < 0:
-        self = self.broadcast_to(antimask.shape, recursive=False)
+        self = self.broadcast_to(antimask.shape)
         self_rank = antimask_rank
         extras = 0
 
@@ -71,7 +81,7 @@ def shrink(self, antimask):
                        for k in range(len(after))])
     new_shape = before + new_after
     if self._shape_ != new_shape:
-        self = self.broadcast_to(new_shape, recursive=False)
+        self = self.broadcast_to(new_shape)
     if antimask.shape != new_after:
         antimask = np.broadcast_to(antimask, new_after)
 
@@ -96,7 +106,7 @@ def shrink(self, antimask):
                  mask, example=self)
     obj.as_readonly()
 
-    for (key, deriv) in self._derivs_.items():
+    for (key, deriv) in derivs.items():
         obj.insert_deriv(key, deriv.shrink(antimask))
 
     # Cache values to speed things up later
@@ -151,7 +161,8 @@ def unshrink(self, antimask, shape=()):
 
     # If we found a cached value, return it
     if unshrunk is not None:
-        return unshrunk.mask_where(np.logical_not(antimask))
+        mask = np.broadcast_to(np.logical_not(antimask), unshrunk._shape_)
+        return unshrunk.mask_where(mask)
 
     # Create the new data array
     new_shape = self._shape_[:-1] + antimask.shape
